@@ -720,6 +720,8 @@ fn item(i: &Item) -> Value {
         }
         Item::Static(c) => {
             let mut m = node("Const", line);
+            m.insert("static".into(), json!(true));
+            m.insert("mut".into(), json!(matches!(c.mutability, syn::StaticMutability::Mut(_))));
             m.insert("name".into(), json!(c.ident.to_string()));
             m.insert("ty".into(), json!(ts(&&*c.ty)));
             m.insert("expr".into(), expr(&c.expr));
